@@ -224,7 +224,12 @@ class JsonSchemaParser:
                 t = t or self.type_map.get(type) or self.default_type
             elif not unprovided(value):
                 t = _type(value)
-            if constraints:
+            if constraints and t is _type(None):
+                # a Rule returns None before it looks at its constraints: whether null passes const / enum is decided here
+                if not all(val is None if key == 'const' else None in val
+                           for key, val in constraints.items() if key in ('const', 'enum')):
+                    t = LogicalType.not_of(Any)
+            elif constraints:
                 t = self.annotate(
                     t,
                     name=name,
